@@ -9,8 +9,8 @@
    keys l alone, in the least-fixed-point sense of Spec.v (C03 ties the
    table-method answers to it). *)
 From Coq Require Import ZArith List Bool.
-From CSS Require Import Forest.Spec Forest.Model Forest.Run Forest.Extractor
-  Forest.ExtractorRun Forest.ExtractorTheorems Forest.Positional Forest.PositionalExtractor.
+From CSS Require Import Base.Sx Forest.Spec Forest.Model Forest.Run Forest.Extractor
+  Forest.ExtractorRun Forest.ExtractorTheorems Forest.ExtractorTermination Forest.PositionalTotal Forest.Positional Forest.PositionalExtractor.
 Import ListNotations.
 
 Definition buckets_ok (ks : list bkey) : Prop := forall k, In k ks -> (bk_bucket k < 4)%nat.
@@ -112,6 +112,66 @@ Theorem C11_one_rule_per_class_partial : forall l,
     parent (bk_key (nth i l (mkb dummy 0))) = parent (bk_key (nth j l (mkb dummy 0))) -> i = j.
 Proof. exact distinct_parents_sound. Qed.
 
+(* ================= TERMINATION / TOTALITY ================= *)
+
+(* no productivity test, hence no run of the extractor model, runs out of fuel *)
+Theorem C11_never_out_of_fuel : forall fuel root ks, extract fuel root ks <> OutOfFuel.
+Proof. exact extract_never_out_of_fuel. Qed.
+
+(* the fuel argument (a floor under the proved bound) does not matter *)
+Theorem C11_fuel_irrelevant : forall fuel fuel' root ks, extract fuel root ks = extract fuel' root ks.
+Proof. exact extract_fuel_irrelevant. Qed.
+
+(* when the start class pumps, the extractor returns a rule set: neither out of
+   fuel nor "Not pumping after adding all rules" *)
+Theorem C11_total : forall fuel root ks,
+  buckets_ok ks -> Pk root ks -> exists res, extract fuel root ks = Ok res.
+Proof. exact extract_total. Qed.
+
+(* closedness without the hypothesis that check()'s table-method run returns *)
+Theorem C11_closed_total : forall fuel root ks res,
+  buckets_ok ks -> Pk root ks -> extract fuel root ks = Ok res ->
+  forall k c, In k res -> mentions_class c k ->
+  exists k', In k' res /\ parent (bk_key k') = c.
+Proof. exact extract_closed_total. Qed.
+
+(* everything together, no fuel and no "the run returned" hypothesis *)
+Theorem C11_total_correct : forall fuel root ks,
+  buckets_ok ks -> Pk root ks ->
+  exists res, extract fuel root ks = Ok res /\
+    (forall k, In k res ->
+       In k ks /\ pumps (map bk_key ks) (parent (bk_key k)) /\
+       forall c s, In (c, s) (kids (bk_key k)) -> pumps (map bk_key ks) c) /\
+    Pk root res /\
+    (forall i, (i < length res)%nat -> ~ Pk root (firstn i res ++ skipn (S i) res)) /\
+    (forall k c, In k res -> mentions_class c k ->
+       exists k', In k' res /\ parent (bk_key k') = c).
+Proof.
+  exact extract_total_correct.
+Qed.
+
+(* the extracted model run by the harness never reports status 1 (out of fuel) *)
+Theorem C11_harness_never_out_of_fuel : forall inp, run_c11 inp <> L [I 1%Z; L []; I 0%Z].
+Proof. exact run_c11_never_out_of_fuel. Qed.
+
+(* ================= ONE RULE PER CLASS, AXIOM-FREE ================= *)
+(* C03 termination decides, for every key list, whether a class pumps or has exactly n terms
+   (valued_total); that was the only use of Classical_Prop.classic in Positional.v.  These are
+   the same statements as C11_minimal_one_rule_per_class / C11_one_rule_per_class, closed under
+   the global context. *)
+Theorem C11_minimal_one_rule_per_class_total : forall (R : list fkey) (root : nat),
+  pumps R root ->
+  (forall i, (i < length R)%nat -> ~ pumps (firstn i R ++ skipn (S i) R) root) ->
+  forall i j, (i < length R)%nat -> (j < length R)%nat ->
+    parent (nth i R dummy) = parent (nth j R dummy) -> i = j.
+Proof. exact minimal_one_rule_per_class_total. Qed.
+
+Theorem C11_one_rule_per_class_total : forall fuel root ks res,
+  buckets_ok ks -> extract fuel root ks = Ok res -> Pk root ks ->
+  forall i j, (i < length res)%nat -> (j < length res)%nat ->
+    parent (bk_key (nth i res (mkb dummy 0))) = parent (bk_key (nth j res (mkb dummy 0))) -> i = j.
+Proof. exact extract_one_rule_per_class_total. Qed.
+
 Example C11_nonvacuous :
   let ks := [mkb (mkkey 0 [(1%nat, 1%Z)]) 1; mkb (mkkey 1 [(0%nat, 0%Z)]) 0;
              mkb (mkkey 1 []) 3; mkb (mkkey 0 [(0%nat, 1%Z); (1%nat, 0%Z)]) 1;
@@ -134,3 +194,11 @@ Print Assumptions C11_minimal_one_rule_per_class_valued.
 Print Assumptions C11_positional.
 Print Assumptions C11_one_rule_per_class.
 Print Assumptions C11_one_rule_per_class_runs.
+Print Assumptions C11_never_out_of_fuel.
+Print Assumptions C11_fuel_irrelevant.
+Print Assumptions C11_total.
+Print Assumptions C11_closed_total.
+Print Assumptions C11_total_correct.
+Print Assumptions C11_harness_never_out_of_fuel.
+Print Assumptions C11_minimal_one_rule_per_class_total.
+Print Assumptions C11_one_rule_per_class_total.
